@@ -7,10 +7,10 @@ Import ListNotations.
 Record wire_st := { w_packets_rec : Z }.
 Inductive wire_fx :=
 | FxStampCurrent (t : Q)
-| FxStorePut.
+| FxStorePut (t : Q).
 
 (* Wire.put  (def put(self, packet: Packet):) *)
 Definition gen_Wire_put (s : wire_st) (debug : bool) (now : Q)
   : wire_st * list wire_fx :=
   let packets_rec1 := ((w_packets_rec s) + (1)%Z)%Z in
-  ({| w_packets_rec := packets_rec1 |}, [(FxStampCurrent now); FxStorePut]).
+  ({| w_packets_rec := packets_rec1 |}, [(FxStampCurrent now); (FxStorePut now)]).
